@@ -284,6 +284,9 @@ where
         cell_key: CellKey,
         vertex: Vertex<K::Scalar, U, D>,
     ) -> Result<FlipInfo<D>, FlipError> {
+        // The Edit API adds a vertex behind the insertion bookkeeping: drop the spatial index
+        // (it is rebuilt lazily) so the duplicate query of a later `insert` cannot miss it.
+        self.invalidate_insertion_caches();
         self.tri.flip_k1_insert(cell_key, vertex)
     }
 
